@@ -302,3 +302,40 @@ def spawn_scenario(rec, ctx, attrs, nchildren, seed, workdir):
 
 
 LATE = 20.0
+
+
+# -- fork while the object is held by the parent --------------------------------
+
+def held_child(obj, conn):
+    """forked while the parent holds `obj`: this process does not hold it"""
+    try:
+        got = obj.acquire(False)
+        conn.send(('try', got))
+        if got:
+            obj.release()
+        # the parent lets go after reading the answer
+        got = obj.acquire(True, 30)
+        conn.send(('blocking', got))
+        if got:
+            obj.release()
+    except BaseException:
+        try:
+            conn.send(('raised', traceback.format_exc()[-1500:]))
+        except Exception:
+            pass
+
+
+def notify_child(cond, conn):
+    """forked inside the parent's `with cond:` block: can only get in once the
+    parent waits, and its notify must wake the parent"""
+    try:
+        t0 = time.monotonic()
+        with cond:
+            conn.send(('inside', time.monotonic() - t0))
+            cond.notify()
+        conn.send(('left', None))
+    except BaseException:
+        try:
+            conn.send(('raised', traceback.format_exc()[-1500:]))
+        except Exception:
+            pass
